@@ -274,6 +274,16 @@ Theorem C09_compare_bounds_sound : forall l omin omax, b_eq (bounds l) omin omax
 Proof. exact bounds_sound. Qed.
 Print Assumptions C09_compare_bounds_sound.
 
+(* GeoMean of at most 64 unweighted values (tag bit 32): exp / ln are never evaluated — the observed g is positive and
+   its n-th power is within the relative tolerance geo_rel n = 64 n (n + 8) 2^-52 of the product of the values *)
+Theorem C09_compare_geomean_sound : forall xs g, (length xs <= 64)%nat ->
+  g_check xs (geomean xs) 0 (XFin g) = 0%Z -> geomean xs <> GNaN ->
+  0 < g /\ Qabs (Qpw g (length xs) - Qprod xs) <= geo_rel (length xs) * Qprod xs.
+Proof. exact geomean_value_sound. Qed.
+Print Assumptions C09_compare_geomean_sound.
+Example C09_geomean_example : g_check [2; 8] (geomean [2; 8]) 0 (XFin 4) = 0%Z /\ geomean [2; 8] <> GNaN.
+Proof. split; [vm_compute; reflexivity | discriminate]. Qed.
+
 (* Non-vacuity: real lines of the harness (hexadecimal fields written in decimal), accepted, and they decode. *)
 Definition C09_line_unw : list Z := [9; 0; 0; 0; 8; 4611686018427387904; 4616189618054758400; 4616189618054758400; 4616189618054758400; 4617315517961601024; 4617315517961601024; 4619567317775286272; 4621256167635550208; 0; 4617315517961601024; 4616832989430097042; 4611996969317966890; 4616868778438153437; 4611686018427387904; 4621256167635550208; 0; 4617315517961601024; 0; 4616832989430097042; 0; 4611996969317966890; 0; 4616868778438153437; 4630826316843712512; 4620693217682128896; 4611686018427387904; 4621256167635550208; 1]%Z.
 Definition C09_line_w : list Z := [9; 0; 1; 1; 3; 4607182418800017408; 4611686018427387904; 4613937818241073152; 3; 0; 4607182418800017408; 4611686018427387904; 4611686018427387904; 4607182418800017408; 4607182418800017408; 4610862402797412991; 4607182418800017408; 4613937818241073152; 0; 4613187218303178069; 2; 0; 2; 0; 0; 4613083803783214218; 4620693217682128896; 4613937818241073152; 4611686018427387904; 4613937818241073152; 1]%Z.
